@@ -49,6 +49,8 @@ def rule_classify(ctx):
     ctx.floor('K4', 'iteration paths', len(paths), 4)
     seen = set()
     for p in paths:
+        if p.kind == 'diverge':
+            continue        # a path ending in a panic (failed debug_assert!/unreachable!) classifies nothing
         cm = p.cond_map()
         cov = ln = asn = None
         for v, labs in cm.items():
